@@ -104,6 +104,14 @@ def _dec(ctype, e):
     return e
 
 
+def _pk(case, path):
+    """Identity of a sub-cache: for file caches the directory it denotes (subcache('a/b') IS subcache('a').subcache('b')),
+    for the in-memory cache the chain of names."""
+    if case['ctype'] == 'memory':
+        return tuple(path)
+    return tuple('/'.join(path).split('/')) if path else ()
+
+
 @st.composite
 def cases(draw):
     ctype = draw(st.sampled_from(CTYPES))
@@ -172,7 +180,7 @@ def eval_case(case, rec):
         for step, op in enumerate(case['ops']):
             key = case['keys'][op['key']]
             path = case['paths'][op['path']]
-            mk = (tuple(path), key)
+            mk = (_pk(case, path), key)
             cur = model.get(mk, ABSENT)
             info = {'step': step, 'op': op, 'key': key, 'path': path, 'ctype': ctype}
             kind = op['op']
@@ -192,7 +200,7 @@ def eval_case(case, rec):
                 how = op['how']
                 if how == 'cross':
                     ok = case['keys'][op['other']]
-                    other = model.get((tuple(path), ok), ABSENT)
+                    other = model.get((_pk(case, path), ok), ABSENT)
                     if ok == key or other is ABSENT or other is MISMATCH or not ctype.startswith('json'):
                         continue
                     shutil.copyfile(cache.filepath(ok), fp)
@@ -307,7 +315,7 @@ def eval_case(case, rec):
         for pi, path in enumerate(case['paths']):
             cache = _sub(root, path)
             for key in case['keys']:
-                cur = model.get((tuple(path), key), ABSENT)
+                cur = model.get((_pk(case, path), key), ABSENT)
                 info = {'step': 'final', 'key': key, 'path': path, 'ctype': ctype, 'model_state': _st(cur)}
                 try:
                     got = cache.get(key)
